@@ -214,6 +214,11 @@ func scenarios() []scenario {
 		ops = append(ops, show)
 		out = append(out, scenario{"F-style-fields-2x1", 2, 1, ops, 4, 5, nil})
 	}
+	{ // W3: wide runes at the end of a row that is not the last one (what they cover ends at the row's end)
+		ops := []op{{kind: "set", x: 2, y: 0, r: '世'}, {kind: "set", x: 2, y: 0, r: 'a'}, {kind: "set", x: 1, y: 0, r: '界', st: 1}, {kind: "set", x: 0, y: 1, r: 'y'},
+			{kind: "fill", r: 'b'}, {kind: "fill", r: '世'}, {kind: "clear"}, show}
+		out = append(out, scenario{"W3-wide-row-end-3x2", 3, 2, ops, 4, 5, []op{{kind: "clear"}, {kind: "show"}}}) // every cell holds a stored blank and is clean
+	}
 	{ // E: LINES / COLUMNS set to values that differ from the tty's size
 		ops := []op{{kind: "set", x: 0, y: 0, r: 'a'}, {kind: "set", x: 2, y: 1, r: 'z', st: 1}, {kind: "set", x: 1, y: 0, r: '世'}, {kind: "cursor", x: 2, y: 1}, show, sync}
 		out = append(out, scenario{"E-env-size-hints-3x2", 3, 2, ops, 4, 5, nil})
